@@ -29,6 +29,24 @@ type DConfig struct {
 	MkDirFS func(k int) (hackpadfs.FS, func(), error)
 	// MountChild: a child that is itself a mount point; only its name and kind must agree with Stat (C16)
 	MountChild string
+	// Dir is the name of the listed directory: "d", or ".d" for the variants whose listed directory has a name that
+	// begins with a dot (a name like any other, also directly below the root of an archive, a mount or a view)
+	Dir string
+}
+
+func (c *DConfig) dir() string {
+	if c.Dir == "" {
+		return "d"
+	}
+	return c.Dir
+}
+
+// DirOfKind splits the ".dot" suffix off an adapter kind: ("tar.dot") -> ("tar", ".d")
+func DirOfKind(kind string) (string, string) {
+	if strings.HasSuffix(kind, ".dot") {
+		return strings.TrimSuffix(kind, ".dot"), ".d"
+	}
+	return kind, "d"
 }
 
 // ChildName returns the i-th (1-based) child name; odd children are files, even ones directories.
@@ -36,11 +54,11 @@ func ChildName(i int) string { return fmt.Sprintf("c%02d", i) }
 func ChildIsDir(i int) bool  { return i%2 == 0 }
 
 // PopulateDir builds the DirH fixture on a writable FS.
-func PopulateDir(fs hackpadfs.FS, k int) error { return populateDir(fs, k, true) }
+func PopulateDir(fs hackpadfs.FS, k int) error { return populateDir(fs, k, true, "d") }
 
-func populateDir(fs hackpadfs.FS, k int, mkD bool) error {
+func populateDir(fs hackpadfs.FS, k int, mkD bool, dir string) error {
 	if mkD {
-		if err := hackpadfs.Mkdir(fs, "d", 0755); err != nil {
+		if err := hackpadfs.Mkdir(fs, dir, 0755); err != nil {
 			return err
 		}
 	}
@@ -49,13 +67,13 @@ func populateDir(fs hackpadfs.FS, k int, mkD bool) error {
 	}
 	// siblings whose names extend the directory's name: a prefix scan that ignores the element boundary would
 	// list "zz" (unknown) and "c01" (duplicate) as children of "d"
-	for _, sib := range []string{"dzz", "dXc01"} {
+	for _, sib := range []string{dir + "zz", dir + "Xc01"} {
 		if err := hackpadfs.WriteFullFile(fs, sib, []byte("s"), 0644); err != nil {
 			return err
 		}
 	}
 	for i := 1; i <= k; i++ {
-		p := "d/" + ChildName(i)
+		p := dir + "/" + ChildName(i)
 		if ChildIsDir(i) {
 			if err := hackpadfs.Mkdir(fs, p, 0700); err != nil {
 				return err
@@ -81,12 +99,17 @@ func populateDir(fs hackpadfs.FS, k int, mkD bool) error {
 
 // Writable wraps a plain FS constructor into a DirH fixture constructor.
 func Writable(mk func() (hackpadfs.FS, func(), error)) func(int) (hackpadfs.FS, func(), error) {
+	return WritableAt(mk, "d")
+}
+
+// WritableAt is Writable with the listed directory named dir.
+func WritableAt(mk func() (hackpadfs.FS, func(), error), dir string) func(int) (hackpadfs.FS, func(), error) {
 	return func(k int) (hackpadfs.FS, func(), error) {
 		fs, cl, err := mk()
 		if err != nil {
 			return nil, nil, err
 		}
-		if err := PopulateDir(fs, k); err != nil {
+		if err := populateDir(fs, k, true, dir); err != nil {
 			cl()
 			return nil, nil, err
 		}
@@ -103,6 +126,7 @@ func Writable(mk func() (hackpadfs.FS, func(), error)) func(int) (hackpadfs.FS, 
 //	cache     cache.ReadOnlyFS over the populated source
 //	tar       tar.ReaderFS unpacked from an archive of the populated tree
 func ComposedDir(kind string) func(int) (hackpadfs.FS, func(), error) {
+	kind, dir := DirOfKind(kind)
 	return func(k int) (hackpadfs.FS, func(), error) {
 		none := func() {}
 		switch kind {
@@ -113,29 +137,29 @@ func ComposedDir(kind string) func(int) (hackpadfs.FS, func(), error) {
 			}
 			fs, err := hpos.NewFS().Sub(strings.TrimPrefix(tmp, "/"))
 			if err == nil {
-				err = PopulateDir(fs, k)
+				err = populateDir(fs, k, true, dir)
 			}
 			return fs, func() { _ = os.RemoveAll(tmp) }, err
 		case "mntat":
 			root, _ := mem.NewFS()
-			if err := hackpadfs.Mkdir(root, "d", 0755); err != nil {
+			if err := hackpadfs.Mkdir(root, dir, 0755); err != nil {
 				return nil, nil, err
 			}
 			inner, _ := mem.NewFS()
 			mfs, _ := mount.NewFS(root)
-			if err := mfs.AddMount("d", inner); err != nil {
+			if err := mfs.AddMount(dir, inner); err != nil {
 				return nil, nil, err
 			}
-			return mfs, none, populateDir(mfs, k, false)
+			return mfs, none, populateDir(mfs, k, false, dir)
 		case "mntbelow":
 			root, _ := mem.NewFS()
 			mfs, _ := mount.NewFS(root)
-			if err := PopulateDir(mfs, k); err != nil {
+			if err := populateDir(mfs, k, true, dir); err != nil {
 				return nil, nil, err
 			}
 			if k >= 2 { // the first child directory becomes a mount point
 				inner, _ := mem.NewFS()
-				if err := mfs.AddMount("d/"+ChildName(2), inner); err != nil {
+				if err := mfs.AddMount(dir+"/"+ChildName(2), inner); err != nil {
 					return nil, nil, err
 				}
 			}
@@ -147,11 +171,11 @@ func ComposedDir(kind string) func(int) (hackpadfs.FS, func(), error) {
 			}
 			view, err := hackpadfs.Sub(base, "x/y")
 			if err == nil {
-				err = PopulateDir(view, k)
+				err = populateDir(view, k, true, dir)
 			}
 			return view, none, err
 		case "cache", "tar":
-			return ComposeFrom(kind)(nil, func(fs hackpadfs.FS) error { return PopulateDir(fs, k) })
+			return ComposeFrom(kind)(nil, func(fs hackpadfs.FS) error { return populateDir(fs, k, true, dir) })
 		}
 		return nil, nil, fmt.Errorf("unknown composed dir kind %q", kind)
 	}
@@ -269,7 +293,7 @@ func (in *DInst) checkEntries(ents []hackpadfs.DirEntry, seen map[string]bool, s
 			problems = append(problems, "info-error")
 			continue
 		}
-		st, err := hackpadfs.Stat(in.fs, "d/"+name)
+		st, err := hackpadfs.Stat(in.fs, in.cfg.dir()+"/"+name)
 		if err != nil {
 			problems = append(problems, "listed-entry-not-statable")
 			continue
@@ -306,7 +330,7 @@ func (in *DInst) do(call *tla.Value) (o DObs) {
 	}
 	switch op {
 	case "open":
-		h, err := in.fs.Open("d")
+		h, err := in.fs.Open(in.cfg.dir())
 		o.Err = err
 		if err == nil {
 			in.hs[i] = h
@@ -336,7 +360,7 @@ func (in *DInst) do(call *tla.Value) (o DObs) {
 	case "close":
 		o.Err = f.Close()
 	case "listdir":
-		o.Entries, o.Err = hackpadfs.ReadDir(in.fs, "d")
+		o.Entries, o.Err = hackpadfs.ReadDir(in.fs, in.cfg.dir())
 		o.Problems = in.checkEntries(o.Entries, map[string]bool{}, true)
 	case "listfile":
 		o.Entries, o.Err = hackpadfs.ReadDir(in.fs, "f")
